@@ -32,8 +32,8 @@ type c24In struct {
 
 const c24Key = "AAA/1Min/OHLCV"
 
-var c24DestPool = []string{"5Min", "15Min", "30Min", "1H", "2H", "4H"}
-var c24DestSecs = map[string]int64{"5Min": 300, "15Min": 900, "30Min": 1800, "1H": 3600, "2H": 7200, "4H": 14400, "10Min": 600, "20Min": 1200}
+var c24DestPool = []string{"5Min", "15Min", "30Min", "1H", "2H", "4H", "1D"}
+var c24DestSecs = map[string]int64{"5Min": 300, "15Min": 900, "30Min": 1800, "1H": 3600, "2H": 7200, "4H": 14400, "1D": 86400, "10Min": 600, "20Min": 1200}
 
 func c24Val(r *rng.Rand, mode int) float32 {
 	switch mode {
@@ -68,7 +68,7 @@ func c24MkBar(r *rng.Rand, epoch int64, mode int) c24Bar {
 func c24Gen(r *rng.Rand, i int, tier string) interface{} {
 	in := c24In{}
 	nd := 1 + r.Intn(3)
-	perm := []int{0, 1, 2, 3, 4, 5}
+	perm := []int{0, 1, 2, 3, 4, 5, 6}
 	for j := len(perm) - 1; j > 0; j-- {
 		k := r.Intn(j + 1)
 		perm[j], perm[k] = perm[k], perm[j]
@@ -94,6 +94,9 @@ func c24Gen(r *rng.Rand, i int, tier string) interface{} {
 	}
 	nw := 1 + r.Intn(maxW)
 	base := int64(1578700800) + r.Range(0, 200)*ub // 2020-01-11 00:00 UTC + whole upper-bound windows
+	if ub == 86400 {
+		base = int64(1578700800) + r.Range(0, 40)*ub
+	}
 	cur := base + r.Range(0, ub/60-1)*60
 	mode := r.Intn(3)
 	kindOfHistory := r.Intn(100) // < 45: append-only in order; else mixed
@@ -232,7 +235,7 @@ func c24Exec(in *c24In) (obs c24Obs, err error) {
 			}
 		}
 	}
-	from, to = from-86400, to+86400 // every bar any destination can hold lies within a day of the base bars
+	from, to = from-2*86400, to+2*86400 // every bar any destination can hold lies within a day of the base bars
 	for _, w := range in.Writes {
 		years := map[int]bool{}
 		for _, b := range w {
@@ -448,7 +451,7 @@ func init() {
 		CoqRequire:  "Require Import MS.Corr.C24.",
 		CoqCaseType: "C24.case",
 		Rule: "histories of 1-4 writes (1-8 thorough) of 1-6 one-minute bars (1-12 thorough) to AAA/1Min/OHLCV on a fresh real instance with the " +
-			"real trigger and 1-3 destinations among 5Min 15Min 30Min 1H 2H 4H in random order (6%: a non-nesting 10Min/20Min); 45% append-only " +
+			"real trigger and 1-3 destinations among 5Min 15Min 30Min 1H 2H 4H 1D in random order (6%: a non-nesting 10Min/20Min); 45% append-only " +
 			"in time order, else mixed with corrections of stored bars, late arrivals before the cached window, writes spanning several " +
 			"windows and writes whose rows are not in time order; distinct = distinct input JSON; non-trivial = inside the theorem's guard " +
 			"with >= 2 writes and >= 4 bars",
